@@ -122,16 +122,10 @@ Theorem C08_rbasex_fault_safe : forall ops,
 Proof. exact CacheRbasexInv.fault_safe. Qed.
 Print Assumptions C08_rbasex_fault_safe.
 
-(* basex: _partial because the model's wrong-shape file is one that cannot be
-   used as the block to extend (np.zeros((2, 1, 1000))): get_bs_cached still
-   loads the LARGEST existing file of the same sigma without a shape check in
-   order to extend it, so a wrong-shape file that fits into the requested
-   basis is used silently (remaining finding C08:basex:wrong-shape-file-extended,
-   exhibited by the directed probe of tools/props/C08.py) *)
-Theorem C08_basex_fault_safe_partial : forall ops,
+Theorem C08_basex_fault_safe : forall ops,
   CacheBasex.no_hazard CacheBasex.init ops = true -> CacheBasex.all_safe CacheBasex.init ops = true.
 Proof. exact CacheBasexProofs.fault_safe. Qed.
-Print Assumptions C08_basex_fault_safe_partial.
+Print Assumptions C08_basex_fault_safe.
 
 (* the histories of the former findings: after the damaged file made a call
    raise and was removed the next call is fresh; wrong-shape files are ignored *)
